@@ -17,6 +17,107 @@ fn posmap(o: &Obs) -> BTreeMap<String, Position> {
     o.positions.iter().map(|p| (p.identifier.clone(), p.clone())).collect()
 }
 
+/// An owner configuration change between a user's close and their withdrawal changes nothing about
+/// the withdrawal: whatever leaves on a fork of the current state also leaves, with the same payout,
+/// on a fork where the farm manager's owner first changed one configuration value. (Normal withdrawals
+/// and full closes; the emergency path legitimately reads the penalty and the epoch manager.)
+fn exits_after_config_change(c: &mut SimCore, obs: &Obs) -> MResult {
+    let now = c.w.now();
+    let owner = match c.w.ownership(&c.w.a.fm).owner {
+        Some(o) => o.to_string(),
+        None => return Ok(()),
+    };
+    let cur = c.w.fm_config();
+    let variant = (c.step_no / 5) % 5;
+    let mut m = FmMsg::UpdateConfig {
+        fee_collector_addr: None,
+        epoch_manager_addr: None,
+        pool_manager_addr: None,
+        create_farm_fee: None,
+        max_concurrent_farms: None,
+        max_farm_epoch_buffer: None,
+        min_unlocking_duration: None,
+        max_unlocking_duration: None,
+        farm_expiration_time: None,
+        emergency_unlock_penalty: None,
+    };
+    let mut normal_only = false;
+    if let FmMsg::UpdateConfig { fee_collector_addr, epoch_manager_addr, pool_manager_addr, min_unlocking_duration, max_unlocking_duration, emergency_unlock_penalty, .. } = &mut m {
+        match variant {
+            0 => *pool_manager_addr = Some(c.w.a.alt[2].to_string()),
+            1 => *fee_collector_addr = Some(c.w.a.alt[0].to_string()),
+            2 => {
+                *epoch_manager_addr = Some(c.w.a.alt[1].to_string());
+                normal_only = true;
+            }
+            3 => {
+                *min_unlocking_duration = Some(cur.max_unlocking_duration);
+                *max_unlocking_duration = Some(cur.max_unlocking_duration);
+                normal_only = true;
+            }
+            _ => *emergency_unlock_penalty = Some(cosmwasm_std::Decimal::percent(1)),
+        }
+    }
+    let cfg_op = Op::Fm { sender: owner, msg: m, funds: vec![] };
+    let mut done = 0;
+    for p in obs.positions.iter() {
+        let unlocked = !p.open && p.expiring_at.map(|e| e <= now).unwrap_or(false);
+        let action = if unlocked {
+            PositionAction::Withdraw { identifier: p.identifier.clone(), emergency_unlock: None }
+        } else if p.open && !normal_only {
+            PositionAction::Close { identifier: p.identifier.clone(), lp_asset: None }
+        } else {
+            continue;
+        };
+        if done >= 3 {
+            break;
+        }
+        done += 1;
+        let who = p.receiver.to_string();
+        let op = Op::Fm { sender: who.clone(), msg: FmMsg::ManagePosition { action }, funds: vec![] };
+        let run = |c: &mut SimCore, with_cfg: bool| -> Option<(bool, u128, Option<Position>, String)> {
+            let snap = c.fork();
+            if with_cfg && !c.exec_op(&cfg_op, None).ok() {
+                c.w.restore(&snap);
+                return None;
+            }
+            let b0 = crate::world::bal(&c.w.balances(), &who, &p.lp_asset.denom);
+            let o = c.exec_op(&op, None);
+            let b1 = crate::world::bal(&c.w.balances(), &who, &p.lp_asset.denom);
+            let after = c.w.positions().into_iter().find(|q| q.identifier == p.identifier);
+            c.w.restore(&snap);
+            Some((o.ok(), b1.saturating_sub(b0), after, o.err_text()))
+        };
+        let base = run(c, false);
+        match base {
+            Some((true, ..)) => {}
+            _ => continue,
+        }
+        let base = base.unwrap();
+        match run(c, true) {
+            None => {
+                c.stats.bump("probe.c08.config_change_refused_on_fork");
+            }
+            Some(alt) => {
+                c.stats.bump(if unlocked { "probe.c08.withdraw_after_config_change" } else { "probe.c08.close_after_config_change" });
+                if !alt.0 {
+                    return Err(viol(
+                        if unlocked { "C08.withdraw_refused" } else { "C08.exit_blocked" },
+                        format!("{}'s {} of position {} works now but is refused after the owner's configuration change #{variant}: {}", c.w.a.name(&who), if unlocked { "withdrawal of the unlocked" } else { "full close" }, p.identifier, alt.3),
+                    ));
+                }
+                if alt.1 != base.1 || alt.2 != base.2 {
+                    return Err(viol(
+                        if unlocked { "C08.withdraw_money" } else { "C08.close_effects" },
+                        format!("position {}: after the owner's configuration change #{variant} the owner receives {} / the position becomes {:?}; without it {} / {:?}", p.identifier, alt.1, alt.2, base.1, base.2),
+                    ));
+                }
+            }
+        }
+    }
+    Ok(())
+}
+
 impl Monitor for C08 {
     fn post(&mut self, c: &mut SimCore, step: &Step, pre: &Obs, out: &TxOut, post: &Obs) -> MResult {
         let now = c.w.now();
@@ -43,6 +144,9 @@ impl Monitor for C08 {
         }
         if c.step_no % 7 == 5 {
             derived_exits(c, post, "C08", 6)?;
+        }
+        if c.step_no % 5 == 2 {
+            exits_after_config_change(c, post)?;
         }
         // ------------------------------------------------------------ frame condition
         let mut changed: Vec<String> = vec![];
